@@ -1089,6 +1089,18 @@ func TestCleanTemplates(t *testing.T) {
 		lit, globs []string
 		named      []NamedOut
 	}
+	// hidden entries in the project root next to matches of slash-less output globs
+	for _, g := range [][]string{{"*.tmp"}, {"*"}, {"*.tmp", "b*/*"}, {"**/*.tmp"}} {
+		for _, inv := range []string{"", "rel-parent"} {
+			c := CleanCase{Tree: []string{".git/config", ".a.tmp", ".cache.d/x.tmp", "notes.tmp", "z.tmp", "build/x.o", "src/t.tmp", "README.md"}, Globs: g, NTasks: 1, Invoke: inv}
+			s.Eval()
+			s.Class("enumerated_small_clean_cases")
+			if f := execClean(s, b, c); f != nil && !seen[f.Sig] {
+				seen[f.Sig] = true
+				s.Violation("clean", f.Sig, f.Msg, f.Size, c)
+			}
+		}
+	}
 	for _, o := range []outs{{}, {globs: []string{"none/*.zzz"}}, {lit: []string{"missing/file"}}, {lit: []string{"bin/app"}}, {named: []NamedOut{{"NOPE", `"nothing/here"`, "nothing/here"}}}, {globs: []string{"build/*.o"}}} {
 		for _, pre := range []bool{true, false} {
 			for _, cleanTask := range []bool{false, true} {
